@@ -227,6 +227,19 @@ func hostileSecondVersion(v *fx.Version, genesis uint64) *fx.Client {
 	return c
 }
 
+// versionFailClient is a protocol client whose lookup fails for one protocol version (a version this node does not know).
+type versionFailClient struct {
+	*fx.Client
+	bad uint64
+}
+
+func (c versionFailClient) Get(t uint64) (protocol.Version, error) {
+	if t == c.bad {
+		return nil, fmt.Errorf("protocol parameters are not defined for protocol version %d", t)
+	}
+	return c.Client.Get(t)
+}
+
 func opIDs(p *fx.Pool, pred func(*fx.PoolOp) bool) []string {
 	var out []string
 	for _, id := range p.Order {
